@@ -102,15 +102,16 @@ theorem placeSection_of_diff (ho : PlaceOpts o name pname) (hs0 : CleanStart s0)
       hd.oldStamp.1 hd.newStamp.1 hd.nonEmpty hd.writable hd.change
   have hrev : (applyOptsOf o).reverse = false := ho.noReverse
   obtain ⟨hops, _, _, _⟩ := Unified.writable_spec h (hd.writable h (List.mem_singleton.2 rfl))
-  have hfit : p + (oldOf h.lines).length ≤ (splitLines bytes).length := by
+  have hfit : p ≤ (splitLines bytes).length ∧
+      ∀ k, (splitLines bytes).length ≤ p + k → Splice.delAt h.lines k = false := by
     obtain ⟨q, _, e, _, _, hadm, _⟩ := C02.locate_sound _ h _ 0 _ 0 _ hloc hc
     have : q = p := by simp only at e; omega
     subst this
-    exact C02.admissibleB_fit hadm
+    exact ⟨Nat.le_of_lt (C02.admissibleB_fit hadm).2, C02.admissibleB_tail hadm⟩
   obtain ⟨r, hap, hrout, _, hrfail, hrskip, hrperf, _, _, hrmsgs, hrtty, hrpatch⟩ :=
     applyPatch_place_one (splitLines bytes) h { patch0 with hunks := [h] } (applyOptsOf o)
       (Option.map (fun l => List.map (fun a => !List.isEmpty a && List.head? a != some 110) l) s0.tty)
-      p f d hrev ho.noDefine rfl hops hfit hloc hnp hrloc
+      p f d hrev ho.noDefine rfl hops hfit.1 hfit.2 hloc hnp hrloc
   refine ⟨patch0, info, par1, par2, r, ?_, hrfail, hrperf, hrskip, hrmsgs, hrout, heof⟩
   exact {
     operand := ho.operand, noOut := ho.noOut, pathNe := hname, cwd := hs0.cwd, hdr := hhdr,
@@ -280,7 +281,8 @@ theorem locate_offset {o : Options} {h : Hunk} {X Y : List Line} (hwr : h.writab
     locateHunk (X ++ oldOf h.lines ++ Y) h o.ignoreWhitespace 0 o.maxFuzz 0 =
       some ⟨(X.length : Int), 0, (X.length : Int) - (h.old.start - 1)⟩ := by
   obtain ⟨hops, h2, h3, hne, _⟩ := Unified.writable_spec h hwr
-  exact locateHunk_moved _ h _ _ X.length ⟨hops, h2, h3⟩ hc (admissibleB_of_exact h _ _ X Y hne hmf) hfirst
+  exact locateHunk_moved _ h _ _ X.length ⟨hops, h2, h3⟩ hc (admissibleB_of_exact h _ _ X Y hne
+    (by intro e; rw [e] at h2; exact hc h2) hmf) hfirst
 
 /-- **C02 / C03 end to end, the offset case, no backup due.**  `patch --no-backup-if-mismatch -i pname name`; the target's lines are
     `X ++ old side of h ++ Y`, the hunk states line `h.old.start ≠ X.length + 1`, and the search does not come across an exact copy
@@ -468,7 +470,7 @@ theorem noLessFuzzB_sound {file : List Line} {h : Hunk} {iw : Bool} {maxFuzz : I
   cases ha : admissibleB file h iw maxFuzz q f' with
   | false => rfl
   | true =>
-    have hfit := C02.admissibleB_fit ha
+    have hfit := (C02.admissibleB_fit ha).2
     unfold noLessFuzzB at hb
     have := List.all_eq_true.1 (List.all_eq_true.1 hb f' (List.mem_range.2 hf')) q (List.mem_range.2 (by omega))
     rw [ha] at this; cases this
@@ -550,7 +552,7 @@ example : (runPatch oNo s0).1 = 0 :=
       cases ha : admissibleB (splitLines bytes) hk oNo.ignoreWhitespace oNo.maxFuzz q 0 with
       | false => rfl
       | true =>
-        have hfit := C02.admissibleB_fit ha
+        have hfit := C02.admissibleB_fit_zero ha
         have hl : (splitLines bytes).length = 5 := by decide
         have ho : (oldOf hk.lines).length = 3 := by decide
         rw [hl, ho] at hfit
